@@ -141,6 +141,10 @@ class GenericRules(unittest.TestCase):
         finally:
             paths._INVENTORY = saved
 
+    def test_cache_keyed_by_summaries(self):
+        self.assertEqual(self.run_named("lossy_cache_reads", "cached_by_summaries"), ["VIOLATED"])
+        self.assertEqual(self.run_named("lossy_cache_reads", "cached_by_bytes"), ["DISCHARGED"])
+
     def test_gather_with_the_permutation_itself_is_reported(self):
         self.assertEqual(self.run_rule("nested_windows_wrong"), ["VIOLATED"])
 
